@@ -88,7 +88,7 @@ func hasEmptyKey(n *gen.Node) bool {
 }
 
 func genCfg(h *rt.H) *gen.Cfg {
-	return &gen.Cfg{Depth: h.Param("D", 2), Width: h.Param("W", 2), MaxNode: h.Param("K", 4), StrLen: h.Param("S", 1), Leaves: h.Param("L", 4), ASCII: h.Param("ASCII", 0) == 1, Small: h.Param("SMALL", 0) == 1, Bytes: h.Param("BYTES", 0) == 1, Chain: h.Param("CHAIN", 0), Long: h.Param("LONG", 0)}
+	return &gen.Cfg{Depth: h.Param("D", 2), Width: h.Param("W", 2), MaxNode: h.Param("K", 4), StrLen: h.Param("S", 1), Leaves: h.Param("L", 4), ASCII: h.Param("ASCII", 0) == 1, Small: h.Param("SMALL", 0) == 1, Bytes: h.Param("BYTES", 0) == 1, Chain: h.Param("CHAIN", 0), Long: h.Param("LONG", 0), Special: h.Param("SPECIAL", 0) == 1}
 }
 
 // newEncoder creates the codec's encoder; for JSON the three options are chosen symbolically.
